@@ -23,8 +23,17 @@ static PAYLOAD: [u8; 64] = {
 
 /// Value bytes for pair number `idx` of length `len` (distinct per pair).
 fn value_bytes(idx: usize, len: usize) -> &'static [u8] {
-    &PAYLOAD[idx * 7..idx * 7 + len]
+    if len <= 8 {
+        return &PAYLOAD[idx * 7..idx * 7 + len];
+    }
+    // big values (ASCII, so &str kinds work): a 400 000-byte pattern, offset by the pair number
+    static BIG: std::sync::OnceLock<Vec<u8>> = std::sync::OnceLock::new();
+    let big = BIG.get_or_init(|| (0..400_000usize).map(|i| 0x21 + (i % 89) as u8).collect());
+    &big[idx * 13..idx * 13 + len]
 }
+
+/// Value lengths around the 64 KiB mark (copied values may be fed to the sink in pieces).
+pub const BIG_LENS: [usize; 7] = [65_535, 65_536, 65_537, 100_000, 131_072, 131_073, 200_000];
 
 /// Independent layout function: count, N-1 cumulative ends, tags stably
 /// sorted by little-endian value (or given order when `presorted`), values.
@@ -205,6 +214,16 @@ fn judge(bytes: &[u8], claimed_len: usize, pairs: &[(u32, Vec<u8>)], presorted: 
     let tags: Vec<u32> = view.tags().iter().map(|t| t.value()).collect();
     if tags != sorted.iter().map(|p| p.0).collect::<Vec<_>>() {
         return Err(format!("view.tags() = {:x?}", tags));
+    }
+    // indexing past the end (every index of an empty message) yields nothing
+    let n = sorted.len();
+    for i in [n, n + 1] {
+        if let Some((t, v)) = view.get(i) {
+            return Err(format!("view.get({}) = ({:x}, {} bytes) on a message of {} pairs", i, t.value(), v.len(), n));
+        }
+        if let Some(v) = view.get_value(i) {
+            return Err(format!("view.get_value({}) = {} bytes on a message of {} pairs", i, v.len(), n));
+        }
     }
     Ok(())
 }
@@ -531,6 +550,41 @@ pub fn run(ctx: &Ctx) -> Report {
         }
     }
     limit_rec(ctx, &mut rep, &mut lens, 3, &mut unit);
+    // Big values: one or two pairs, one of them of a length around 64 KiB, every leaf kind
+    // (borrowed and owned), three constructors, the iovec and hcobs sinks.
+    for big in BIG_LENS {
+        for kind in [Kind::Slice, Kind::Str, Kind::CowBytes, Kind::CowStr] {
+            for (tags, lens) in [(vec![5u32], vec![big]), (vec![9u32, 2], vec![3, big]), (vec![1u32, 1], vec![big, 1])] {
+                let masks: Vec<u32> = if matches!(kind, Kind::CowBytes | Kind::CowStr) { vec![0, (1 << tags.len()) - 1] } else { vec![0] };
+                for cow_mask in masks {
+                    for ctor in CTORS {
+                        for sink in [SinkKind::Iovec, SinkKind::Hcobs] {
+                            let u = unit;
+                            unit += 1;
+                            if !ctx.owns(u) {
+                                continue;
+                            }
+                            let case = Case { kind, ctor, sink, tags: tags.clone(), lens: lens.clone(), cow_mask };
+                            rep.evaluations += 1;
+                            rep.transitions += 1;
+                            rep.count("big_value_cases", 1);
+                            if let Err(e) = run_case(&case) {
+                                if run_case(&case).is_ok() {
+                                    machinery_failure("C11 big-value violation did not reproduce");
+                                }
+                                let e = if e.len() > 300 { format!("{} ...", &e[..300]) } else { e };
+                                let r = case.render();
+                                violation(&mut rep, format!("C11:{}", r.replace(' ', ",")), format!("rough_tlv encode [{}]: {}", r, e), format!("check: enc\ncase: {}\nobserved: {}\n", r, e));
+                            } else {
+                                rep.nontrivial += 1;
+                            }
+                        }
+                    }
+                }
+            }
+        }
+    }
+    rep.note(format!("big values: lists of one or two pairs with a value of {:?} bytes, kinds &[u8] / &str / Cow bytes / Cow str (all borrowed, all owned), 3 constructors, iovec and hcobs sinks", BIG_LENS));
     rep.max_depth = max_n as u64;
     rep.note(format!(
         "C11: all pair lists with 0..={} pairs (nested kinds: 0..={}), tags from {:x?}, value lengths from {:?}, 6 value kinds (with every Cow variant mask), 3 constructors, 3 sinks; plus every periodic tag pattern of period <= 4 over 3 tags at every length 0..=72 (unique values, 3 constructors); plus all claimed-length lists of <= 3 pairs over {:?}",
